@@ -70,7 +70,7 @@ META = {
         technique="runtime monitoring: getter reads bracketing every call + NaN-sentinel output buffers + NaN-poisoned input slack, over seeded hostile histories",
         text="Exploration. Around every processing call of every generated history the monitor reads the four frame-count getters, supplies "
              "exactly input_frames_next() frames followed by poison, pre-fills the output with sentinels, and compares returned counts, "
-             "written high-water mark and getter relations; buffers from *_buffer_allocate taken at construction are reused for the whole life.",
+             "written high-water mark and getter relations; the *_frames_max() getters are treated as lifetime bounds (smallest value ever returned vs every later *_frames_next()) and the *_buffer_allocate buffers are re-obtained at arbitrary points of the history and must stay sufficient.",
         note="Trusts the harness' notion of a valid history; NaN sentinels/poison can only be confused with data if the resampler itself produced that exact NaN payload.",
         design="5/C04"),
     "C09": dict(
@@ -120,10 +120,10 @@ META.update({
                 note="The oracle demands acceptance of the computed bounds original/max and original*max themselves.", design="5/C12"),
     "C13": dict(technique="runtime monitoring: fault injection of malformed calls into valid histories (debug-assertion build), error-variant oracle, sentinels, lock-step twin",
                 text="Exploration. Malformed processing calls of every shape are injected at random points; each must return the matching ResampleError with expected/actual fields, not panic, not write a single output frame and leave the instance bit-identical to a twin that never saw it. Constructor table for invalid arguments.",
-                note="One malformation per call so that the expected variant is unambiguous.", design="5/C13"),
+                note="One malformation per call so that the expected variant is unambiguous; 45% of the malformed calls carry a valid mask with the short channel active (the reported channel index must be the real one).", design="5/C13"),
     "C16": dict(technique="runtime monitoring: lock-step differential twin (convenience wrappers / boxed trait object vs core call on zero-padded input), bit-exact",
                 text="Exploration. process(), process_partial(_into_buffer) with Some(shorter)/None and the VecResampler trait object are compared call by call with process_into_buffer on explicitly zero-padded input.",
-                note="Bit-exact comparison of two executions of the same arithmetic.", design="5/C16"),
+                note="Bit-exact comparison of two executions of the same arithmetic; partial inputs with per-channel different lengths and masked flush calls included.", design="5/C16"),
     "C17": dict(technique="runtime monitoring: lock-step differential twin f32 vs f64 with rounding-bound oracle and control-decision equality",
                 text="Exploration. The f32 and f64 instantiations run the same histories; every getter and returned count must agree at every step and every f32 output value must equal the rounded f64 value within K*eps32*peak (K = 16+L/2 sinc, 32 polynomial, 64+16*log2(FFT) FFT); least-squares gain within 32+L/8 eps32.",
                 note="K is a guard-banded figure: measured worst 11.6 (sinc), 3.3 (polynomial), 31 (FFT) eps32*peak on the repaired tree.", design="5/C17"),
@@ -156,9 +156,9 @@ META.update({
                 note="Resolution 1e-9 or 256 ulp of the instant; start-up frames overlapping the zero pre-roll are skipped; partial calls are excluded (zero padding breaks the index signal).", design="5/C06"),
     "C07": dict(technique="runtime monitoring: conservation check (running in/out totals) at every prefix of long constant-ratio streams, exact integer arithmetic for the synchronous types",
                 text="Exploration. After every call of streams up to millions of 1-frame chunks |out - r*in| is compared with the property's constant; synchronous types are checked with exact integers, FftFixedInOut block sizes against a gcd computation.",
-                note="Zero-valued input (counts do not depend on sample values).", design="5/C07"),
+                note="Zero-valued input (counts do not depend on sample values); 12% marathon streams (chunk 1-3, up to 1.2e6 / 8e6 calls) with a trend clause: the envelope of out - r*in must not shift by more than max(1,r)+1 frames between the first and the last third of the stream.", design="5/C07"),
     "C08": dict(technique="runtime monitoring: polynomial test signals evaluated at measured instants (index-signal twin), classical interpolation bounds for sinusoids",
-                text="Exploration. Polynomials of admissible degree must come out as P(instant) within 64-256 eps*max|P|; sinusoids within the classical Lagrange error bound; Nearest must return the sample at floor(instant).",
+                text="Exploration. Polynomials of admissible degree must come out as P(instant) within 64-256 eps*max|P|; sinusoids within the classical Lagrange error bound; Nearest must return the sample at or just before the instant (instants measured with the Linear degree of the same variant).",
                 note="Instants are measured, not assumed; a uniform shift of all instants is C14's business, not C08's.", design="5/C08"),
 })
 
@@ -193,7 +193,7 @@ META.update({
                 note="NEON is not compiled on x86_64 (out of reach). Miri +avx runs with Tree Borrows (the wide-load-through-element-reference idiom is flagged by Stacked Borrows only).", design="5/C15"),
     "C18": dict(technique="runtime monitoring: per-call output hashes of concurrently driven, thread-migrating instances vs a single-threaded reference; ThreadSanitizer and Miri data-race detection on the same workload",
                 text="Exploration. Up to 16 threads construct and drive instances from a shared pool (instances migrate at call boundaries, random yields/spins); every per-call hash must equal the single-threaded reference and neither TSan nor Miri may report a race.",
-                note="Schedules are sampled, not enumerated; evidence reports migrations, distinct (instance,thread) pairs and distinct per-instance thread sequences actually observed.", design="5/C18"),
+                note="Schedules are sampled, not enumerated; evidence reports migrations, distinct (instance,thread) pairs and distinct per-instance thread sequences actually observed; every fourth case is a construction storm (4-16 threads constructing 40-120 small configurations at the same time), 60% of the pool cases carry sibling instances differing in one filter parameter.", design="5/C18"),
 })
 
 PLANS.update({
